@@ -167,13 +167,17 @@ func txEntry(t *testing.T, r *run, g *gen, ks map[string]*kind) {
 		}
 		out.Count("tx-entry:route:" + route)
 		tallied := false
-		if att := k.GetAttestation(s.Ctx, c.GetEventNonce(), c.ClaimHash()); att != nil {
-			for _, vt := range att.Votes {
-				if vt == oracles[o].String() {
-					tallied = true
+		// (ClaimHash of a malformed claim may panic: such a claim cannot have been filed)
+		_ = hx.Try(func() error {
+			if att := k.GetAttestation(s.Ctx, c.GetEventNonce(), c.ClaimHash()); att != nil {
+				for _, vt := range att.Votes {
+					if vt == oracles[o].String() {
+						tallied = true
+					}
 				}
 			}
-		}
+			return nil
+		})
 		if tallied {
 			observable = true
 		}
